@@ -24,7 +24,10 @@ ASSUMPTIONS = [
     'SUMIF/SUMIFS are not exercised: the installed pandas 3.0 has no '
     'DataFrame.applymap and both raise AttributeError (the statement '
     'exempts this)',
-    'wildcards, <> against blank cells, numeric text cells, VLOOKUP with '
+    'wildcards, <> against blank cells, numeric text cells, cells holding '
+    'error values (COUNTIF over a column with an error cell raises '
+    'TypeError or returns the error in this library; the statement '
+    'quantifies over numbers and texts), VLOOKUP with '
     'range_lookup TRUE and MATCH type -1 are not generated',
 ]
 
@@ -102,6 +105,9 @@ def _build(d):
                     if d.pick(4) == 0:
                         c[i] = None
         return {'k': 'COUNTIF' if k == 0 else 'COUNTIFS', 'cols': cols,
+                # the criterion handed over through a CELL instead of being
+                # written into the formula
+                'critcell': d.pick(3) == 0,
                 'crits': crits, 'orient': d.choice(['c', 'c', 'r'])}
     if k == 3:
         col = [_cell(d) for _ in range(min(nrows, 11))]
@@ -288,10 +294,27 @@ def judge(case):
         else:
             cells = _cells(cols)
             rngs = [_rng(j, n) for j in range(len(cols))]
-        args = ','.join('%s,%s' % (rngs[j], lit(crits[j][1]))
-                        for j in range(len(cols)))
+        presets = None
+        if case.get('critcell'):
+            presets = {}
+            for j in range(len(cols)):
+                cv = crits[j][1]
+                if isinstance(cv, str) and cv[:1] == '=':
+                    # a text starting with '=' cannot be written into the
+                    # dict (it would be a formula): set_cell_value
+                    cells['Sheet1!XF%d' % (j + 1)] = 0
+                    presets['Sheet1!XF%d' % (j + 1)] = cv
+                else:
+                    cells['Sheet1!XF%d' % (j + 1)] = cv
+            args = ','.join('%s,XF%d' % (rngs[j], j + 1)
+                            for j in range(len(cols)))
+            res.labels += ('criterion-from-cell',)
+        else:
+            args = ','.join('%s,%s' % (rngs[j], lit(crits[j][1]))
+                            for j in range(len(cols)))
         f = '=%s(%s)' % (k, args)
-        o = lib.eval_formula(f, cells, addr='Sheet1!Z99')[0]
+        o = lib.eval_formula(f, cells, addr='Sheet1!Z99',
+                             presets=presets)[0]
         res.nontrivial = 0 < want < n
         res.labels += tuple('op:' + p[0] for p in parsed[:1])
         if o != N(want):
